@@ -780,6 +780,9 @@ func textTime(r *Rng) time.Time {
 	if r.Chance(6) {
 		t = time.Unix(int64(r.Intn(3))-1, int64(r.Intn(2))*500_000_000) // the epoch itself and its neighbours
 	}
+	if r.Chance(2) {
+		return time.Time{} // a record without a time of its own: this handler writes the zero time like any other
+	}
 	switch r.Intn(4) {
 	case 0:
 		return t.UTC()
